@@ -130,6 +130,11 @@ class P:
         return _PNumeral(lo, hi)
 
     @staticmethod
+    def casing(text):
+        """every letter-casing of `text` (each cased character independently upper or lower)"""
+        return _PCasing(text)
+
+    @staticmethod
     def any():
         return _PAny()
 
@@ -343,6 +348,32 @@ class _PNumeral(P):
 
     def concretize(self, value, model):
         return repr("".join(chr(c) for c in _ev_seq(value, model)))
+
+
+class _PCasing(P):
+    def __init__(self, text):
+        self.text = text
+
+    def make(self, name):
+        from .sym import ctx, BL, mk_rope
+        import z3
+        c = ctx()
+        items = []
+        for i, ch in enumerate(self.text):
+            lo, up = ch.lower(), ch.upper()
+            if lo != up and len(lo) == 1 and len(up) == 1:
+                t = z3.Int(c.fresh_name(f"{name}_c{i}"))
+                c.assume(z3.Or(t == ord(lo), t == ord(up)))
+                items.append(t)
+            else:
+                items.append(ord(ch))
+        return mk_rope("str", [BL(items)])
+
+    def concretize(self, value, model):
+        return repr("".join(chr(c) for c in _ev_seq(value, model)))
+
+    def sample(self, rng):
+        return repr("".join(rng.choice([ch.lower(), ch.upper()]) for ch in self.text))
 
 
 class _PAny(P):
